@@ -1,38 +1,246 @@
 import Hms.Lex.Spec
+import HmsProofs.Lemmas.LexLoc
+import HmsProofs.Lemmas.LexStep
+import HmsProofs.Lemmas.LexPiece
 /-! Helper lemmas for C06/C05/C08 (lexer). -/
 namespace HmsProofs.Lemmas.Lexer
-open Hms Hms.Lex
+open Hms Hms.Lex HmsProofs.Lemmas.LexStep HmsProofs.Lemmas.LexLoc HmsProofs.Lemmas.LexPiece
+
+theorem pieces_total_aux (fuel : Nat) (loc : Loc) (src : List Char) (h : src.length < fuel) :
+    ∃ r, pieces fuel loc src = .inl r := by
+  induction fuel generalizing loc src with
+  | zero => omega
+  | succ fuel ih =>
+    cases src with
+    | nil => exact ⟨_, rfl⟩
+    | cons c cs =>
+      simp only [pieces]
+      split
+      · exact ⟨_, rfl⟩
+      · rename_i p rest hn
+        obtain ⟨h1, h2, -⟩ := nextPiece_ok _ _ _ _ _ hn
+        have hlen : rest.length < fuel := by
+          have := congrArg List.length h1
+          have hp : p.chars.length ≥ 1 := by
+            cases hpc : p.chars with
+            | nil => exact absurd hpc h2
+            | cons _ _ => simp
+          simp at this h
+          omega
+        obtain ⟨r, hr⟩ := ih (loc.advanceBy p.chars) rest hlen
+        rw [hr]
+        split
+        · exact ⟨_, rfl⟩
+        · exact ⟨_, rfl⟩
+        · rename_i heq; simp at heq
 
 /-- Fuel never runs out. -/
 theorem pieces_total (src : List Char) (loc : Loc) :
-    ∃ r, pieces (src.length + 1) loc src = .inl r := by
-  sorry
+    ∃ r, pieces (src.length + 1) loc src = .inl r :=
+  pieces_total_aux _ _ _ (by omega)
+
+theorem pieces_go (fuel : Nat) (consumed remaining : List Char) (ps : List Piece)
+    (h : pieces fuel (locOf consumed) remaining = .inl (.ok ps)) :
+    ps.flatMap Piece.chars = remaining
+      ∧ Spec.tokenizes.go (consumed ++ remaining) consumed.length ps = true := by
+  induction fuel generalizing consumed remaining ps with
+  | zero => simp [pieces] at h
+  | succ fuel ih =>
+    cases remaining with
+    | nil =>
+      simp only [pieces, Sum.inl.injEq, Except.ok.injEq] at h
+      subst h
+      simp [Spec.tokenizes.go]
+    | cons c cs =>
+      simp only [pieces] at h
+      split at h
+      · simp at h
+      · rename_i p rest hn
+        obtain ⟨h1, h2, h3⟩ := nextPiece_ok _ _ _ _ _ hn
+        rw [locOf_advanceBy] at h
+        split at h
+        · rename_i ps' hps
+          simp only [Sum.inl.injEq, Except.ok.injEq] at h
+          subst h
+          obtain ⟨i1, i2⟩ := ih _ _ _ hps
+          refine ⟨by simp [i1, h1], ?_⟩
+          have hsrc : consumed ++ p.chars ++ rest = consumed ++ c :: cs := by
+            rw [List.append_assoc, h1]
+          rw [hsrc] at i2
+          simp only [List.length_append] at i2
+          simp only [Spec.tokenizes.go, i2, Bool.and_true, i1]
+          have hemp : ps'.isEmpty = rest.isEmpty := by
+            cases rest with
+            | nil =>
+              cases fuel with
+              | zero => simp [pieces] at hps
+              | succ f => simp [pieces] at hps; simp [hps]
+            | cons x xs =>
+              cases ps' with
+              | nil => simp at i1
+              | cons _ _ => rfl
+          cases p with
+          | token t lx =>
+            obtain ⟨q1, q2, q3, q4, q5⟩ := h3
+            simp only [Piece.chars] at h1
+            have hlen1 : lx.length ≥ 1 := by
+              cases lx with
+              | nil => exact absurd rfl q1
+              | cons _ _ => simp
+            have hstart : Spec.locAt (consumed ++ c :: cs) consumed.length = locOf consumed :=
+              locAt_append_length _ _
+            have hstop : Spec.locAt (consumed ++ c :: cs) (consumed.length + lx.length - 1)
+                = locOf (consumed ++ lx.dropLast) := by
+              have hsplit : consumed ++ c :: cs
+                  = (consumed ++ lx.dropLast) ++ (lx.getLast q1 :: rest) := by
+                rw [← h1]
+                conv => lhs; rw [← List.dropLast_concat_getLast q1]
+                simp
+              have hlen : consumed.length + lx.length - 1 = (consumed ++ lx.dropLast).length := by
+                simp [List.length_dropLast]; omega
+              rw [hsplit, hlen]
+              exact locAt_append_length _ _
+            have hne : lx.isEmpty = false := by
+              cases lx with
+              | nil => exact absurd rfl q1
+              | cons _ _ => rfl
+            simp only [hne, q2, q3, q4, hstart, hstop, locOf_advanceBy, Bool.not_false, Bool.true_and,
+              beq_self_eq_true]
+            exact q5
+          | space x => rw [hemp]; exact h3
+          | lineComment x => rw [hemp]; exact h3
+          | blockComment x => rw [hemp]; exact h3
+        · simp at h
+        · simp at h
 
 /-- Master theorem: the piece list the model produces satisfies the lexical specification. -/
 theorem pieces_tokenize (src : List Char) (ps : List Piece)
     (h : pieces (src.length + 1) Loc.start src = .inl (.ok ps)) : Spec.tokenizes src ps = true := by
-  sorry
+  rw [← locOf_nil] at h
+  obtain ⟨h1, h2⟩ := pieces_go _ [] src ps h
+  simp only [List.nil_append, List.length_nil] at h2
+  simp only [Spec.tokenizes, h1, h2, beq_self_eq_true, Bool.and_self]
+
+theorem lexPrefix_of_pieces_ok (fuel : Nat) (loc : Loc) (src : List Char) (ps : List Piece)
+    (acc : List Tok) (h : pieces fuel loc src = .inl (.ok ps)) :
+    lexPrefix fuel loc src acc =
+      ⟨acc.reverse ++ tokensOf ps,
+       some ⟨.eof, "EOF".toList, loc.advanceBy (ps.flatMap Piece.chars), loc.advanceBy (ps.flatMap Piece.chars)⟩,
+       none⟩ := by
+  induction fuel generalizing loc src ps acc with
+  | zero => simp [pieces] at h
+  | succ fuel ih =>
+    cases src with
+    | nil =>
+      simp only [pieces, Sum.inl.injEq, Except.ok.injEq] at h
+      subst h
+      simp [lexPrefix, tokensOf, Loc.advanceBy]
+    | cons c cs =>
+      simp only [pieces] at h
+      simp only [lexPrefix]
+      split at h
+      · simp at h
+      · rename_i p rest hn
+        split at h
+        · rename_i ps' hps
+          simp only [Sum.inl.injEq, Except.ok.injEq] at h
+          subst h
+          rw [ih _ _ _ _ hps]
+          rw [List.flatMap_cons, advanceBy_append]
+          cases p <;> simp [tokensOf]
+        · simp at h
+        · simp at h
+
+theorem lexPrefix_of_pieces_err (fuel : Nat) (loc : Loc) (src : List Char) (e : LexErr)
+    (acc : List Tok) (h : pieces fuel loc src = .inl (.error e)) :
+    (lexPrefix fuel loc src acc).err = some e ∧ (lexPrefix fuel loc src acc).eof = none := by
+  induction fuel generalizing loc src acc with
+  | zero => simp [pieces] at h
+  | succ fuel ih =>
+    cases src with
+    | nil => simp [pieces] at h
+    | cons c cs =>
+      simp only [pieces] at h
+      simp only [lexPrefix]
+      split at h
+      · rename_i e' hn
+        simp only [Sum.inl.injEq, Except.error.injEq] at h
+        subst h
+        exact ⟨rfl, rfl⟩
+      · rename_i p rest hn
+        split at h
+        · simp at h
+        · rename_i e' hps
+          simp only [Sum.inl.injEq, Except.error.injEq] at h
+          subst h
+          exact ih _ _ _ hps
+        · simp at h
 
 theorem lexAll_of_pieces_ok (src : List Char) (ps : List Piece)
     (h : pieces (src.length + 1) Loc.start src = .inl (.ok ps)) :
     (lexAll src).tokens = tokensOf ps ∧ (lexAll src).err = none
       ∧ (lexAll src).eof = some ⟨.eof, "EOF".toList, Spec.locAt src src.length, Spec.locAt src src.length⟩ := by
-  sorry
+  have hflat : ps.flatMap Piece.chars = src := by
+    have h' := h
+    rw [← locOf_nil] at h'
+    exact (pieces_go _ [] src ps h').1
+  have hloc : Loc.start.advanceBy src = Spec.locAt src src.length := by
+    rw [start_advanceBy, locAt_eq_locOf _ _ (Nat.le_refl _), List.take_length]
+  unfold lexAll
+  rw [lexPrefix_of_pieces_ok _ _ _ _ [] h, hflat, hloc]
+  simp
 
 theorem lexAll_of_pieces_err (src : List Char) (e : LexErr)
     (h : pieces (src.length + 1) Loc.start src = .inl (.error e)) :
-    (lexAll src).err = some e ∧ (lexAll src).eof = none := by
-  sorry
+    (lexAll src).err = some e ∧ (lexAll src).eof = none :=
+  lexPrefix_of_pieces_err _ _ _ _ [] h
+
+theorem pieces_err_go (fuel : Nat) (consumed remaining : List Char) (e : LexErr)
+    (h : pieces fuel (locOf consumed) remaining = .inl (.error e)) :
+    ∃ a b r, a ++ b ++ r = consumed ++ remaining ∧ e.start = locOf a ∧ e.stop = locOf (a ++ b) := by
+  induction fuel generalizing consumed remaining with
+  | zero => simp [pieces] at h
+  | succ fuel ih =>
+    cases remaining with
+    | nil => simp [pieces] at h
+    | cons c cs =>
+      simp only [pieces] at h
+      split at h
+      · rename_i e' hn
+        simp only [Sum.inl.injEq, Except.error.injEq] at h
+        subst h
+        obtain ⟨a, b, r, h1, h2, h3⟩ := nextPiece_err _ _ _ _ hn
+        refine ⟨consumed ++ a, b, r, by simp [← h1], ?_, ?_⟩
+        · rw [h2, locOf_advanceBy]
+        · rw [h3, locOf_advanceBy, List.append_assoc]
+      · rename_i p rest hn
+        obtain ⟨h1, -, -⟩ := nextPiece_ok _ _ _ _ _ hn
+        rw [locOf_advanceBy] at h
+        split at h
+        · simp at h
+        · rename_i e' hps
+          simp only [Sum.inl.injEq, Except.error.injEq] at h
+          subst h
+          obtain ⟨a, b, r, g1, g2, g3⟩ := ih _ _ hps
+          exact ⟨a, b, r, by rw [g1, List.append_assoc, h1], g2, g3⟩
+        · simp at h
 
 /-- Error spans are real positions of the text (the end may be the end-of-input position). -/
 theorem pieces_error_span (src : List Char) (e : LexErr)
     (h : pieces (src.length + 1) Loc.start src = .inl (.error e)) :
     e.start.idx ≤ e.stop.idx ∧ e.stop.idx ≤ src.length
       ∧ e.start = Spec.locAt src e.start.idx ∧ e.stop = Spec.locAt src e.stop.idx := by
-  sorry
+  rw [← locOf_nil] at h
+  obtain ⟨a, b, r, h1, h2, h3⟩ := pieces_err_go _ [] src e h
+  simp only [List.nil_append] at h1
+  subst h1
+  rw [h2, h3]
+  refine ⟨by simp [locOf_idx], by simp [locOf_idx], ?_, ?_⟩
+  · rw [locOf_idx, List.append_assoc, locAt_append_length]
+  · rw [locOf_idx, locAt_append_length]
 
 /-- The keyword decision of `makeName` is the specification's keyword table. -/
-theorem keywordKind_eq_lookup (w : String) : keywordKind w = Spec.keywords.lookup w := by
-  sorry
+theorem keywordKind_eq_lookup (w : String) : keywordKind w = Spec.keywords.lookup w :=
+  LexStep.keywordKind_eq_lookup w
 
 end HmsProofs.Lemmas.Lexer
